@@ -77,6 +77,62 @@ func c11Rules(p *core.Prog, r *core.Run) {
 	plt := normTokens(parserTokens(p, plist, root))
 	r.Check("C11.GRAMMAR", "ParseConfigList:grammar", plt == "p16{ loop{ call:parseConfig(_) } }", p.Pos(plist.Pos()), "ParseConfigList reads: %s (a uint16-prefixed sequence of configs, each parsed by parseConfig on the child cursor)", plt)
 	r.Tables["config_tokens"] = map[string]string{"Bytes": bt, "parseConfig": pt, "ConfigList": lt, "ParseConfigList": plt}
+	// every parsed config starts from the zero ConfigSpec: the struct the parser
+	// appends cipher suites to is allocated per parse (inside parseConfig, or by the
+	// caller in the same loop iteration as the call), never carried over from the
+	// previous config of a list
+	nAcc := 0
+	for _, b := range parse.Blocks {
+		for _, in := range b.Instrs {
+			st, ok := in.(*ssa.Store)
+			if !ok {
+				continue
+			}
+			fa, ok := st.Addr.(*ssa.FieldAddr)
+			if !ok {
+				continue
+			}
+			c, ok := st.Val.(*ssa.Call)
+			if !ok {
+				continue
+			}
+			if bi, ok := c.Call.Value.(*ssa.Builtin); !ok || bi.Name() != "append" {
+				continue
+			}
+			nAcc++
+			fresh, why := false, ""
+			switch base := fa.X.(type) {
+			case *ssa.Alloc:
+				fresh = innermostLoop(parse, base.Block()) == nil
+				why = "allocated in parseConfig"
+			case *ssa.Parameter:
+				fresh = true
+				why = "supplied by the caller:"
+				idx := -1
+				for i, pa := range parse.Params {
+					if pa == base {
+						idx = i
+					}
+				}
+				for _, cs := range allCalls(p, p.PkgFuncs(Ech)) {
+					if !sameFn(cs.X.Fn, parse) || idx < 0 {
+						continue
+					}
+					arg := cs.Instr.Common().Args[idx]
+					al, isAl := arg.(*ssa.Alloc)
+					okSite := isAl && innermostLoop(cs.Fn, al.Block()) == innermostLoop(cs.Fn, cs.Instr.Block())
+					why += fmt.Sprintf(" %s fresh=%v", p.InstrPos(cs.Instr), okSite)
+					if !okSite {
+						fresh = false
+					}
+				}
+			default:
+				why = "cannot tell where " + short(p.X(fa.X)) + " comes from"
+			}
+			r.Check("C11.GRAMMAR", "parseConfig:fresh-spec", fresh, p.InstrPos(st), "the list parseConfig appends to (%s) belongs to a ConfigSpec that starts out zero for every config parsed (%s)", short(p.X(fa)), why)
+		}
+	}
+	r.Check("C11.GRAMMAR", "parseConfig:accumulators", nAcc == 1, p.Pos(parse.Pos()), "parseConfig accumulates into one list (found %d)", nAcc)
 	// Spec() = parseConfig on the config's own bytes
 	okSpec := false
 	for _, s := range allCalls(p, []*ssa.Function{spec}) {
